@@ -800,9 +800,9 @@ func cut(s string) string {
 // property
 
 var prefer = map[string][]string{
-	"hlsl": {"hlsl-keyword", "hlsl-contextual", "hlsl-intrinsic", "helper", "case"},
-	"msl":  {"msl-keyword", "msl-namespace", "helper", "case"},
-	"glsl": {"glsl-keyword", "glsl-builtin", "helper", "case"},
+	"hlsl": {"hlsl-keyword", "hlsl-contextual", "hlsl-intrinsic", "helper", "case", "wgsl-builtin-fn"},
+	"msl":  {"msl-keyword", "msl-namespace", "helper", "case", "wgsl-builtin-fn"},
+	"glsl": {"glsl-keyword", "glsl-builtin", "helper", "case", "wgsl-builtin-fn"},
 }
 
 func nontrivial(c *Case) bool {
